@@ -73,6 +73,7 @@ def run(tier):
         name = "mb%d_%s_%s" % (mb, "rich" if rich else "plain", "sizes" if hs else "nosizes")
         cfg = os.path.join(wd, name + ".cfg")
         open(cfg, "w").write("SPECIFICATION Spec\nCONSTANTS MaxBlocks = %d\n HasSizes = %s\n Rich = %s\n Export = TRUE\n"
+                             " Alphabet = \"edit\"\n Corrupt = FALSE\n OnlyAdd = FALSE\n ExportStates = FALSE\n"
                              "INVARIANT Refines\nINVARIANT MirrorInv\nACTION_CONSTRAINT Emit\nVIEW View\nCHECK_DEADLOCK FALSE\n"
                              % (mb, "TRUE" if hs else "FALSE", "TRUE" if rich else "FALSE"))
         trans = os.path.join(wd, name + ".trans.ndjson")
